@@ -189,3 +189,11 @@ package wmpt
 //@   ensures err == nil ==> n2 != nil                                                                         #returns-a-node
 //@   ensures len(key) == 0 && err == nil && (node == nil || node is *nilNode || node is *valueNode || (node is *hashNode && StoresValue(node.(*hashNode))))
 //@      | && W0(value) <= 4611686018427387904 && old(W(node)) <= 4611686018427387904 ==> W(n2) == old(W(node)) + change      #pathend.delta
+// insert only ever marks nodes dirty (it never validates a cached hash).
+//@   ensures (forall r *routingNode :: old(r.dirty) ==> r.dirty) && (forall r *shortNode :: old(r.dirty) ==> r.dirty)      #dirty-flags-only-set
+// Hash caches (C09, root follows content): an interior node handed back clean (its cached hash will be
+// reused by Root/Commit) means that the call overwrote no value.
+//@   ensures err == nil && ((n2 is *routingNode && n2.(*routingNode) != nil && !n2.(*routingNode).dirty) || (n2 is *shortNode && n2.(*shortNode) != nil && !n2.(*shortNode).dirty))
+//@      | ==> heapof(valueNode.value) == old(heapof(valueNode.value)) && heapof(valueNode.weight) == old(heapof(valueNode.weight))      #clean-interior-result-means-nothing-written
+//@   ensures err == nil && n2 is *valueNode && n2.(*valueNode) != nil && n2 == node && !n2.(*valueNode).dirty
+//@      | ==> heapof(valueNode.value) == old(heapof(valueNode.value)) && heapof(valueNode.weight) == old(heapof(valueNode.weight))                      #clean-value-means-not-overwritten
